@@ -288,6 +288,31 @@ pub fn check_clients(c: &mut Cluster) {
             _ => {}
         }
     }
+    // ---- C30 (timed mode): every request a live node accepted is answered by its deadline
+    //      (deadlines are checked at tick granularity: one heartbeat interval of slack, twice
+    //      for requests that arrived just after a tick)
+    if c.opts.timed {
+        let bound = c.opts.raft_timeout_ms + 2 * c.opts.heartbeat_ms + 1_000;
+        for cl in &c.clients {
+            let live = matches!(c.slots.get(&cl.node), Some(Slot::Up(_)) | Some(Slot::Busy));
+            match &cl.outcome {
+                ClientOutcome::Pending if live => {
+                    let age = c.clock_ms.saturating_sub(cl.invoked_ms);
+                    if age > bound {
+                        viol.push((
+                            "C30".into(),
+                            format!("pending{}", cl.id),
+                            format!(
+                                "request {:?}{:?} accepted by node {} (then {:?} of term {}) is still unanswered {} ms after it was made (deadline {} ms + tick slack)",
+                                cl.write, cl.read, cl.node, cl.role_at_invoke, cl.term_at_invoke, age / 1000 * 1000, c.opts.raft_timeout_ms
+                            ),
+                        ));
+                    }
+                }
+                _ => {}
+            }
+        }
+    }
     // ---- C12: a lease read is answered from local state only while no other node has won an
     //      election for a later term (the lease window must have ended before that is possible)
     for cl in &c.clients {
@@ -489,4 +514,138 @@ pub fn check_linearizable_history(c: &mut Cluster) {
         c.oracle.violate("C11", key.clone(), text.clone());
         c.oracle.violate("C10", key, text);
     }
+}
+
+
+/// What the explorer appends at the end of a path. Returns the events it applied (ordinary
+/// events, so a replay file reproduces the closure too).
+pub async fn closure(c: &mut Cluster, mode: super::menu::Closure) -> Res<Vec<Event>> {
+    use super::cluster::ClientOutcome;
+    use super::cluster::VoteAns;
+    use super::menu::Closure;
+    let mut done: Vec<Event> = vec![];
+    match mode {
+        Closure::None => {}
+        Closure::TimeOnly(max_ticks) => {
+            let mut ticks = 0;
+            for _ in 0..(max_ticks * 4) {
+                if c.stuck.is_some() || !c.clients.iter().any(|x| x.outcome == ClientOutcome::Pending) {
+                    break;
+                }
+                let ev = if let Some(el) = &c.election {
+                    Event::Vote(el.peers[el.answered.len()], VoteAns::Lose)
+                } else {
+                    if ticks >= max_ticks || c.up_ids().is_empty() {
+                        break;
+                    }
+                    ticks += 1;
+                    Event::Tick
+                };
+                c.apply(&ev).await?;
+                check_global(c).await;
+                done.push(ev);
+            }
+        }
+        Closure::Recover(max_steps) => {
+            // faults stop: every node that is down comes back
+            let down: Vec<u32> = c.slots.iter().filter(|(_, s)| matches!(s, Slot::Down(_))).map(|(i, _)| *i).collect();
+            if c.election.is_none() {
+                for id in down {
+                    let ev = Event::Restart(id);
+                    c.apply(&ev).await?;
+                    check_global(c).await;
+                    done.push(ev);
+                }
+            }
+            let mut wrote = false;
+            let mut write_id: Option<usize> = None;
+            for _ in 0..max_steps {
+                if c.stuck.is_some() {
+                    break;
+                }
+                // finished? leader exists, the probe write is acknowledged, everybody applied
+                if let Some(w) = write_id {
+                    if matches!(c.clients[w].outcome, ClientOutcome::WriteOk(_)) && recovered(c).is_none() {
+                        break;
+                    }
+                }
+                let ev = if let Some(el) = &c.election {
+                    Event::Vote(el.peers[el.answered.len()], VoteAns::Deliver)
+                } else if let Some(ev) = next_fair_delivery(c) {
+                    ev
+                } else if let Some(id) = c.up_ids().into_iter().find(|i| c.node(*i).map(|n| n.sm.waiting.load(std::sync::atomic::Ordering::SeqCst) > 0).unwrap_or(false)) {
+                    Event::ApplyRelease(id)
+                } else {
+                    let leader = c.last_views.values().find(|v| v.role == RoleKind::Leader && matches!(c.slots.get(&v.id), Some(Slot::Up(_)))).map(|v| v.id);
+                    match (leader, wrote) {
+                        (Some(l), false) if c.last_views.get(&l).map(|v| v.noop.is_some()).unwrap_or(false) => {
+                            wrote = true;
+                            write_id = Some(c.clients.len());
+                            Event::ClientWrite(l, super::cluster::Op::Put("recovery".into(), "probe".into()))
+                        }
+                        _ => Event::Tick,
+                    }
+                };
+                c.apply(&ev).await?;
+                check_global(c).await;
+                done.push(ev);
+            }
+            if c.stuck.is_none() {
+                let why = match write_id {
+                    None => Some("no leader accepted a write".to_string()),
+                    Some(w) if !matches!(c.clients[w].outcome, ClientOutcome::WriteOk(_)) => {
+                        Some(format!("the write issued after the faults stopped was not acknowledged ({:?})", c.clients[w].outcome))
+                    }
+                    Some(_) => recovered(c),
+                };
+                if let Some(why) = why {
+                    let views: Vec<String> = c.last_views.values().map(|v| format!("n{}:{:?} t{} c{} a{} last{}", v.id, v.role, v.term, v.commit, v.applied, v.last)).collect();
+                    c.oracle.violate(
+                        "C32",
+                        "recover".into(),
+                        format!("after the faults stopped (all nodes up, every message delivered in order, {} fair steps incl. timer expiries) the cluster did not recover: {why}; {}", max_steps, views.join(" | ")),
+                    );
+                }
+            }
+        }
+    }
+    Ok(done)
+}
+
+/// first deliverable message in (link, request-before-response) order
+fn next_fair_delivery(c: &Cluster) -> Option<Event> {
+    for (l, nreq, nresp, dead) in c.links() {
+        let target_up = matches!(c.slots.get(&l.to), Some(Slot::Up(_)));
+        if nreq > 0 {
+            if dead && !target_up {
+                return Some(Event::DropReq(l));
+            }
+            if target_up {
+                return Some(Event::Deliver(l, 1));
+            }
+        }
+        if nresp > 0 && !dead {
+            return Some(Event::DeliverResp(l));
+        }
+    }
+    None
+}
+
+/// None when a leader exists and every live voter has applied up to the leader's commit index
+fn recovered(c: &Cluster) -> Option<String> {
+    let leaders: Vec<&NodeView> = c
+        .last_views
+        .values()
+        .filter(|v| v.role == RoleKind::Leader && matches!(c.slots.get(&v.id), Some(Slot::Up(_))))
+        .collect();
+    let Some(l) = leaders.iter().max_by_key(|v| v.term) else { return Some("no leader exists".into()) };
+    for v in c.last_views.values() {
+        if !matches!(c.slots.get(&v.id), Some(Slot::Up(_))) || v.role == RoleKind::Learner {
+            continue;
+        }
+        if v.applied < l.commit {
+            return Some(format!("node {} has applied {} of {} committed entries", v.id, v.applied, l.commit));
+        }
+    }
+    None
 }
